@@ -447,6 +447,9 @@ impl World {
         let p = self.live_vars();
         if p.is_empty() {
             None
+        } else if idx == usize::MAX {
+            // "the variable created last"
+            p.last().copied()
         } else {
             Some(p[idx % p.len()])
         }
